@@ -75,6 +75,16 @@ func scenarioC08(rc *RunCtx) *Violation {
 		}
 		rc.Probe("profile_multi_entry_mangle_cache")
 	}
+	// profile: a style-sheet site - several CSS entry points that share sheets with @layer
+	// lists, imported more than once and in different orders
+	if g.n(4) == 0 {
+		o.Bundle = true
+		if g.n(3) != 0 {
+			o.Splitting = false
+		}
+		p.AddCSSSite(g)
+		rc.Probe("profile_css_site")
+	}
 	kind := perturb(g, p, o)
 	// a second, unrelated project for sibling builds in the same process
 	p2 := GenProject(g, "/q")
